@@ -46,7 +46,15 @@ def evaluate(plan, ctx):
     try:
         sim = simgen.run_simulator(plan, originals)
     except Exception as e:
-        raise Violation("simulator_raised", "Simulator raised %r" % (e,), bucket="simulator_raised:" + type(e).__name__)
+        # a metric with data-dependent parameters may reject the data (mahalanobis with too few rows, singular
+        # covariance): then the public API must reject it as well, and the case says nothing else
+        for (name, ca) in copies_a:
+            try:
+                simgen.api_replay(plan, ca, True)
+            except Exception:
+                return Result(False, ["data_rejected_by_both:" + type(e).__name__], skipped=True)
+        raise Violation("simulator_raised", "Simulator raised %r but the public-API replay of every bandit succeeds"
+                        % (e,), bucket="simulator_raised:" + type(e).__name__)
     tr, te = simgen.split(plan)
     if [int(i) for i in sim.test_indices] != te:
         raise Violation("test_indices", "simulator %r, independent split %r" % (list(sim.test_indices), te))
